@@ -379,6 +379,45 @@ def r10_lookup_is_one_exact_map_access(ctx):
         R.check(len(acc) == 1 and not other, "C13.R10", "%s:one-exact-access" % nm, "Methods::%s is one exact map access" % nm, "Methods::%s is not a single exact map access (%d exact accesses, also: %s): a name that is not bound can be dispatched to the handler of a differently spelled name, and the server's and the in-process dispatcher disagree about which names exist" % (nm, len(acc), sorted({short(c.name()) for c in other})), where(other[0]) if other else "%s:%d" % (b.file, b.lo))
 
 
+def r11_taken_means_is_a_key(ctx):
+    """`registering a name that is taken fails`: taken = is a key of the table, whatever kind of handler is bound to it.
+    Methods::verify_method_name (the pre-check of merge, register_alias and of subscription registration, which then
+    insert with an overwriting insert) is one exact map access and does not look at what is bound (no other table scan, no
+    inspection of the MethodCallback kind): a name regarded as free because `only` a left-over unsubscribe handler holds it
+    gets silently rebound."""
+    F, R = ctx.F, ctx.R
+    b = F.one(r"^jsonrpsee_core::server::rpc_module::Methods::verify_method_name$")
+    acc, other, kinds = [], [], []
+    for x in F.nested(b):
+        R.fn(x)
+        for c in x.calls:
+            n_ = c.name() or ""
+            if re.search(r"HashMap::<.*>::(get|get_key_value|contains_key)$", n_):
+                acc.append(c)
+            elif re.search(r"HashMap::<.*>::(iter|keys|values|into_iter|iter_mut|values_mut)$|Iterator>?::(find|find_map|position|any|all|filter|count)$|rpc_module::Methods::\w+$", n_):
+                other.append(c)
+        for bi, blk in enumerate(x.blocks):
+            if blk.get("cleanup") or bi not in x.reachable:
+                continue
+            for st in blk["st"]:
+                if st["s"] == "assign" and st["rv"]["k"] == "discr":
+                    pl = st["rv"]["pl"]
+                    ty = x.locals[pl["l"]]["ty"]
+                    if "MethodCallback" in ty and "Option" not in ty.split("MethodCallback")[0][-30:] or any(isinstance(e, dict) and e.get("d") == "Some" for e in pl.get("p", [])) and "MethodCallback" in ty:
+                        kinds.append("%s:%d" % (x.file, st["sp"][0]))
+    R.check(len(acc) == 1 and not other and not kinds, "C13.R11", "verify_method_name:key-presence-only", "verify_method_name decides by key presence alone", "Methods::verify_method_name does not decide `taken` by key presence alone (%d exact accesses; also %s%s): a bound name can be reported free, and the callers then overwrite its entry - the module is changed by a registration that should have failed" % (len(acc), sorted({short(c.name()) for c in other}), "; inspects the handler kind at %s" % kinds if kinds else ""), "%s:%d" % (b.file, b.lo))
+
+
+def r12_no_borrowed_names(ctx):
+    """`a call dispatches to the handler bound to its name`: a name spelled with a JSON escape is the same name - nothing
+    in core decodes a wire string as a borrowed &str (which serde can only do for escape-free text; such a request then
+    fails to parse instead of being dispatched / answered -32601) (= C15.R7 over core)"""
+    from . import c15
+    n = c15._borrowed_str_scan(ctx.F, ctx.R, r"^<?jsonrpsee_(types|core)::", "C13.R12")
+    ctx.R.ok("C13.R12", "no-borrowed-str", "%d deserialisation sites inspected" % n)
+    ctx.R.floor("C13.R12", n, 40, "deserialisation sites in types/core")
+
+
 SILENT = r"hash_map::Entry::<.*>::(or_insert|or_insert_with|or_insert_with_key|or_default|and_modify|insert_entry)$|hash_map::OccupiedEntry::<.*>::(insert|get_mut|into_mut|remove|remove_entry)$|HashMap::<.*>::(get_mut|values_mut|iter_mut|retain|clear|get_many_mut|get_disjoint_mut)$|Extend<.*>>::extend$|HashMap::<.*>::extend$"
 
 
@@ -426,7 +465,7 @@ def rgen_generated_registrations(ctx):
     return c17.w_rules(ctx)
 
 
-LIB_RULES = [r1_insert_after_verify, r2_all_or_nothing, r3_copy_on_write, r4_dispatch_and_remove, r5_not_found_iff_unbound, r6_sibling_registrars, r7_names_spelled_alike, r8_insert_fails_only_as_prechecked, r9_no_silent_table_writes, r10_lookup_is_one_exact_map_access]
+LIB_RULES = [r1_insert_after_verify, r2_all_or_nothing, r3_copy_on_write, r4_dispatch_and_remove, r5_not_found_iff_unbound, r6_sibling_registrars, r7_names_spelled_alike, r8_insert_fails_only_as_prechecked, r9_no_silent_table_writes, r10_lookup_is_one_exact_map_access, r11_taken_means_is_a_key, r12_no_borrowed_names]
 CONFIGS_QUICK = ["libs-all", "corpus"]
 CONFIGS_THOROUGH = ["libs-all", "facade-full", "corpus"]
 
